@@ -551,6 +551,15 @@ def correspond(ctx):
         ctx.notes.append("the optional cross-check of the resolution against the object's private __calculate_reference was "
                          "skipped (entry point absent or changed); all gating comparisons use the public API")
         SKIPS["n"] = 0
+    ctx.assumptions.append("input domain: samples are sequences of sequences of Particle (the docs say list; tuples and numpy object "
+                           "arrays are accepted at HEAD and must give the list's result). One-shot iterators are outside the documented "
+                           "domain: as the OUTER container they are rejected (TypeError from len()) and the oracle asserts 'raise or the "
+                           "list's result'; EVENTS given as one-shot iterators are silently consumed once by ReactionPlaneFlow / "
+                           "QCumulantFlow.differential_flow (later bins empty) -- observed at HEAD, not covered by the property "
+                           "statement (List[List[Particle]]), not judged")
+    ctx.assumptions.append("environment: QCumulantFlow / LeeYangZeroFlow / PCAFlow draw their random reaction planes from the global "
+                           "`random` module by design, so the `random` state is exempt for them; the flow API takes no file names, so "
+                           "the cwd / relative-name device only checks that results and cwd are unaffected")
     ctx.assumptions.append("event-plane resolution correction (scipy brentq + Bessel) is an opaque parameter `res` of the "
                            "model; its value at the model's Rn is computed by the harness and checked against the real code's resolution")
     ctx.assumptions.append("phi -> u = exp(i n phi) is evaluated by the harness on the real Particle objects; particles with "
@@ -684,7 +693,7 @@ def _compare_ep(op, case, pf, pr, out):
 
 def _correspond_tables(ctx):
     """generated tables (through the driver) against the behaviour of the real classes"""
-    probes = DOCUMENTED + ["pt", "PT", "y", "eta", "", "pT ", "Rapidity", "pT2", "pTn", "pt2", "phi"]
+    probes = DOCUMENTED + ["pt", "PT", "y", "eta", "", "pT ", "Rapidity", "pT2", "pTn", "pt2", "phi"] + TEXT_VARIANTS
     lines, meta = [], []
     for c in CLASSES:
         lines.append(f"dflt\t{c}")
@@ -755,6 +764,52 @@ def _real_accepts(c, what, s, data):
 
 
 # ------------------------------------------------------------------ oracle on the real code
+# strings that look like documented names: CRLF / LF / blanks / tab around them, non-ASCII look-alikes
+TEXT_VARIANTS = ["pT\r\n", "pT\n", " pT", "pT\t", "rapidity\r", "pseudorapidity ", "p\u0422", "\uff50\uff34", "pT\u00a0"]
+
+
+def oracle_text():
+    """a selector / weight string that only resembles a documented name must be rejected (ValueError) or be treated
+    exactly like the name it resembles -- never accepted and then binned / weighted as something else"""
+    out = []
+    data = _table_sample()
+    import unicodedata
+
+    def resembles(sv):
+        t = unicodedata.normalize("NFKC", sv).strip().replace("\u0422", "T")
+        return t
+    for c in ("ReactionPlaneFlow", "ScalarProductFlow", "EventPlaneFlow"):
+        def diff(sel, weight=None):
+            parts = mk(data)
+            f = _new(c) if weight is None or c == "ReactionPlaneFlow" else _new(c, 2, weight, 0.1)
+            with np.errstate(all="ignore"):
+                if c == "ReactionPlaneFlow":
+                    return flat(api(f, c, "differential_flow", [parts, [0.0, 1.0, 4.0], sel]))
+                return flat([(t[0], t[1]) for t in api(f, c, "differential_flow", [parts, [0.0, 1.0, 4.0], sel, parts])])
+        for sv in TEXT_VARIANTS:
+            FORM_COUNT["text/selector"] = FORM_COUNT.get("text/selector", 0) + 1
+            try:
+                got = diff(sv)
+            except Exception:
+                continue
+            want = diff(resembles(sv)) if resembles(sv) in DOCUMENTED else None
+            if want is None or not _same_result(got, want) if c != "ReactionPlaneFlow" else (want is None or got != want):
+                out.append((f"text-selector:{c}:{sv!r}", f"{c}.differential_flow accepts flow_as_function_of={sv!r} and gives "
+                            f"{got}; the documented name it resembles gives {want}", dict(cls=c, selector=sv)))
+        if c != "ReactionPlaneFlow":
+            for sv in ["pT2 ", "pT2\r\n", " pTn", "p\u04222", "pT\n"]:
+                FORM_COUNT["text/weight"] = FORM_COUNT.get("text/weight", 0) + 1
+                try:
+                    got = diff("pT", weight=sv)
+                except Exception:
+                    continue
+                want = diff("pT", weight=resembles(sv)) if resembles(sv) in WEIGHTS else None
+                if want is None or not _same_result(got, want):
+                    out.append((f"text-weight:{c}:{sv!r}", f"{c}(weight={sv!r}) is accepted and gives {got}; the documented name it "
+                                f"resembles gives {want}", dict(cls=c, weight=sv)))
+    return out
+
+
 def oracle_tables():
     """defaults and documented selectors are accepted by every estimator (real calls)"""
     out = []
@@ -825,7 +880,8 @@ def away_from_edges(case, flow, ref, edges, margin=1e-7):
     return True
 
 
-RELATIONS = ["rotate", "perm-particles", "perm-events", "single-bin", "bins"]
+RELATIONS = ["rotate", "perm-particles", "perm-events", "single-bin", "bins", "copies", "containers", "environment"]
+DEVICE_RELATIONS = ("copies", "containers", "environment")
 
 
 def transformed(rel, case, flow, ref, aux):
@@ -859,6 +915,193 @@ def tight_bin(flow, sel):
     return [float(min(vals)), float(max(vals)) + 1.0] if vals else [0.0, 1.0]
 
 
+# ------------------------------------------------------------------ copies / containers / environment
+def _objarr(x):
+    a = np.empty(len(x), dtype=object)
+    for i, v in enumerate(x):
+        a[i] = v
+    return a
+
+
+CONTAINERS = {  # accepted by the code at HEAD although the docs only say "list": results must not depend on them
+    "tuple-of-tuples": lambda parts: tuple(tuple(e) for e in parts),
+    "tuple-of-lists": lambda parts: tuple(parts),
+    "objarray-of-lists": lambda parts: _objarr(parts),
+    "objarray-of-objarrays": lambda parts: _objarr([_objarr(e) for e in parts]),
+}
+ONE_SHOT = {    # rejected at HEAD (len() of an iterator): must raise or give the list's result, never something else
+    "iter": lambda parts: iter(parts),
+    "generator": lambda parts: (e for e in parts),
+    "map": lambda parts: map(list, parts),
+}
+COPIES = {
+    "copy.copy": lambda o: __import__("copy").copy(o),
+    "copy.deepcopy": lambda o: __import__("copy").deepcopy(o),
+    "pickle": lambda o: __import__("pickle").loads(__import__("pickle").dumps(o)),
+}
+
+
+def _est_ctor(name, case, aux):
+    if name == "ReactionPlaneFlow":
+        return (case["n"],)
+    if name == "QCumulantFlow":
+        return (case["n"], aux["k"], aux.get("imaginary") or "zero")
+    return (case["n"], case["weight"], case["gap"])
+
+
+def _est_call(name, obj, case, aux, method, pf, pr, edges):
+    """one public call, raw result"""
+    if name in ("ReactionPlaneFlow", "QCumulantFlow"):
+        vals = [pf] if method == "integrated_flow" else [pf, edges, case["sel"]]
+    else:
+        vals = [pf, pr, case["self_corr"]] if method == "integrated_flow" else [pf, edges, case["sel"], pr, case["self_corr"]]
+    with np.errstate(all="ignore"):
+        return api(obj, name, method, vals)
+
+
+def _est_same(name, a, b):
+    if name == "QCumulantFlow":
+        try:
+            return _qc_close(a, b, 1e-6) or all(_qc_unstable(x) for x in flat(a)[::2])
+        except Exception:
+            return flat(a) == flat(b)
+    fa, fb = flat(a), flat(b)
+    if name == "ReactionPlaneFlow":
+        return len(fa) == len(fb) and all(vclose(x, y, 1e-9) for x, y in zip(fa, fb))
+    fa = [v for t in (a if isinstance(a, list) else [a]) for v in (float(t[0]), float(t[1]))]
+    fb = [v for t in (b if isinstance(b, list) else [b]) for v in (float(t[0]), float(t[1]))]
+    return _same_result(fa, fb)
+
+
+class perturbed_env:
+    """cwd in a fresh temporary directory, non-default numpy print options and error state, advanced global
+    `random` / `np.random` states; everything restored on exit"""
+    def __enter__(self):
+        import os
+        import random
+        import tempfile
+        self.saved = (os.getcwd(), np.get_printoptions(), np.geterr(), random.getstate(), np.random.get_state())
+        self.tmp = tempfile.TemporaryDirectory()
+        os.chdir(self.tmp.name)
+        np.set_printoptions(precision=2, threshold=3, linewidth=20, suppress=True)
+        np.seterr(all="warn")
+        random.seed(987654321)
+        [random.random() for _ in range(17)]
+        np.random.seed(1234567)
+        np.random.random(13)
+        return self
+
+    def __exit__(self, *a):
+        import os
+        import random
+        os.chdir(self.saved[0])
+        np.set_printoptions(**self.saved[1])
+        np.seterr(**self.saved[2])
+        random.setstate(self.saved[3])
+        np.random.set_state(self.saved[4])
+        self.tmp.cleanup()
+
+
+def _env_state():
+    import os
+    import random
+    st = np.random.get_state()
+    return dict(cwd=os.getcwd(), geterr=dict(np.geterr()), printoptions=repr(sorted(np.get_printoptions().items(), key=str)),
+                random=hash(random.getstate()), np_random=(st[0], hash(st[1].tobytes()), st[2:]))
+
+
+def _check_devices(name, rel, case, aux):
+    """round-4 devices on the real estimator: the result of a public call must not depend on (copies) whether the
+    estimator / the particle lists are copies, (containers) the container types of the sample, (environment) cwd,
+    numpy print options / error state and the global random states -- and the call must leave those as it found them"""
+    flow = case["flow"]
+    ref = flow if case["same"] else case["ref"]
+    ctor = _est_ctor(name, case, aux)
+    edges = aux["edges"]
+    methods = ["integrated_flow", "differential_flow"]
+    if name == "QCumulantFlow" and aux["k"] == 6:
+        methods = ["integrated_flow"]
+
+    def parts():
+        pf = mk(flow)
+        return pf, (pf if case["same"] else mk(ref))
+    for method in methods:
+        pf, pr = parts()
+        try:
+            base = _est_call(name, _new(name, *ctor), case, aux, method, pf, pr, edges)
+        except (ZeroDivisionError, IndexError):
+            continue
+        tag = f"{name}.{method}"
+        if rel == "copies":
+            for how, fn in COPIES.items():
+                obj = _new(name, *ctor)
+                obj2 = fn(obj)
+                if observe(obj2) != observe(obj):
+                    return (f"copy:{tag}:{how}:observable-differs", f"{how} of a {name}{ctor} differs from the original: "
+                            f"{_first_diff(observe(obj), observe(obj2))}", dict())
+                pf, pr = parts()
+                if how != "copy.copy":
+                    pf2 = fn(pf)
+                    pr2 = pf2 if pr is pf else fn(pr)
+                else:
+                    pf2 = [fn(e) for e in fn(pf)]
+                    pr2 = pf2 if pr is pf else [fn(e) for e in fn(pr)]
+                got = _est_call(name, obj2, case, aux, method, pf2, pr2, edges)
+                if not _est_same(name, base, got):
+                    return (f"copy:{tag}:{how}", f"{tag} on a {how} of the estimator and of the particle lists gives {flat(got)}, "
+                            f"on the originals {flat(base)}", dict(expected=flat(base), observed=flat(got)))
+        elif rel == "containers":
+            for kind, fn in CONTAINERS.items():
+                pf, pr = parts()
+                cf = fn(pf)
+                cr = cf if pr is pf else fn(pr)
+                try:
+                    got = _est_call(name, _new(name, *ctor), case, aux, method, cf, cr, edges)
+                except Exception as e:
+                    return (f"container:{tag}:{kind}", f"{tag} with the sample given as {kind} raises {type(e).__name__}: {e} "
+                            f"(a list of lists is accepted)", dict(expected=flat(base), observed="raises " + type(e).__name__))
+                if not _est_same(name, base, got):
+                    return (f"container:{tag}:{kind}", f"{tag} with the sample given as {kind} gives {flat(got)}, as list of "
+                            f"lists {flat(base)}", dict(expected=flat(base), observed=flat(got)))
+            for kind, fn in ONE_SHOT.items():
+                pf, pr = parts()
+                cf = fn(pf)
+                cr = cf if pr is pf else fn(pr)
+                try:
+                    got = _est_call(name, _new(name, *ctor), case, aux, method, cf, cr, edges)
+                except Exception:
+                    FORM_COUNT["one-shot/" + kind + "/rejected"] = FORM_COUNT.get("one-shot/" + kind + "/rejected", 0) + 1
+                    continue
+                if not _est_same(name, base, got):
+                    return (f"iterator:{tag}:{kind}:silently-wrong", f"{tag} with the events given as a one-shot {kind} neither "
+                            f"raises nor gives the list's result: {flat(got)} vs {flat(base)}",
+                            dict(expected=flat(base), observed=flat(got)))
+            if method == "differential_flow":  # documented: bins may be a list or an np.ndarray
+                pf, pr = parts()
+                got = _est_call(name, _new(name, *ctor), case, aux, method, pf, pr, np.asarray(edges, dtype=float))
+                if not _est_same(name, base, got):
+                    return (f"container:{tag}:bins-ndarray", f"{tag} with bins as np.ndarray gives {flat(got)}, as list {flat(base)}",
+                            dict(expected=flat(base), observed=flat(got)))
+        elif rel == "environment":
+            pf, pr = parts()
+            obj = _new(name, *ctor)
+            with perturbed_env():
+                before = _env_state()
+                got = _est_call(name, obj, case, aux, method, pf, pr, edges)
+                after = _env_state()
+            if name == "QCumulantFlow":  # draws its random reaction planes from the global `random` by design
+                before.pop("random"), after.pop("random")
+            changed = [k for k in before if before[k] != after[k]]
+            if changed:
+                return (f"environment:{tag}:changes-{changed[0]}", f"{tag} changed the caller's {changed}: "
+                        f"{ {k: (before[k], after[k]) for k in changed if k in ('cwd', 'geterr')} }", dict())
+            if not _est_same(name, base, got):
+                return (f"environment:{tag}:result-depends", f"{tag} in another working directory, with other numpy print / error "
+                        f"settings and advanced global random states gives {flat(got)}, normally {flat(base)}",
+                        dict(expected=flat(base), observed=flat(got)))
+    return None
+
+
 def check_relation(name, rel, case, aux):
     if POOL["on"]:
         POOL["history"].append(dict(estimator=name, relation=rel, case=_case_json(case, "oracle"), aux=aux))
@@ -870,6 +1113,8 @@ def check_relation(name, rel, case, aux):
 
 def _check_relation(name, rel, case, aux):
     """None or (key, what, detail): the REAL estimator `name` violates relation `rel` on this input"""
+    if rel in DEVICE_RELATIONS and name != "QCumulantFlow":
+        return _check_devices(name, rel, case, aux)
     flow, ref = case["flow"], case["ref"] if not case["same"] else case["flow"]
     edges = aux["edges"]
     n = case["n"]
@@ -1017,43 +1262,105 @@ def _qc_close(a, b, rel=1e-6):
     return True
 
 
+QC_MODES = ["zero", "negative", "nan"]
+
+
+def _qc_unstable(v):
+    """a flow value so close to the branch point of the k-th root that rounding decides it"""
+    v = float(v)
+    return math.isfinite(v) and 0.0 < abs(v) < 1e-3
+
+
 def _check_qc(rel, case, aux):
-    """Q-cumulant estimator (its algebra belongs to C11): metamorphic relations only.  The estimator adds
-    its own random per-event rotation on every call, so equality is up to rounding."""
+    """Q-cumulant estimator (its algebra belongs to C11): metamorphic relations only, for every order k, every
+    `imaginary` mode and both signs of the cumulant (the unphysical sign gives 0 / a negative value / nan by the
+    documented mode; the relations hold there just the same).  The estimator adds its own random per-event
+    rotation on every call, so equality is up to rounding."""
     flow = case["flow"]
-    n, k = case["n"], aux["k"]
+    n, k, imag = case["n"], aux["k"], aux.get("imaginary") or "zero"
     if min([len(e) for e in flow if e] + [99]) < k + 2:
         return None
-    f = new("QCumulantFlow", n, k)
+    if rel in ("containers", "environment", "copies"):
+        return _check_devices("QCumulantFlow", rel, case, aux)
+    f = new("QCumulantFlow", n, k, imag)
     with np.errstate(all="ignore"):
         base = api(f, "QCumulantFlow", "integrated_flow", [mk(flow)])
-        if not math.isfinite(float(base[0])) or abs(float(base[0])) < 1e-3:
-            return None  # cumulant of the wrong sign / at the branch point: unstable by construction
+        if _qc_unstable(base[0]):
+            return None
         if rel == "bins":
             return None  # a bin of the differential Q-cumulant flow is not the integrated flow of a sub-sample
         if rel == "single-bin":
             if k == 6:
                 return None
             for bins1 in (aux["allbin"], tight_bin(flow, case["sel"])):
-                one = api(new("QCumulantFlow", n, k), "QCumulantFlow", "differential_flow", [mk(flow), bins1, case["sel"]])
+                one = api(new("QCumulantFlow", n, k, imag), "QCumulantFlow", "differential_flow", [mk(flow), bins1, case["sel"]])
                 if len(one) != 1 or len(one[0]) < 1 or not vclose(float(one[0][0]), float(base[0]), 1e-6):
-                    return ("QCumulantFlow-single-bin", f"k={k}: differential flow over the single bin {bins1} containing "
-                            f"every particle {one} != integrated {base}",
+                    return ("QCumulantFlow-single-bin", f"k={k}, imaginary={imag!r}: differential flow over the single bin "
+                            f"{bins1} containing every particle {one} != integrated {base}",
                             dict(expected=flat(base[0]), observed=flat(one), bins=bins1))
             return None
         f2, _ = transformed(rel, dict(case, same=True), flow, flow, aux)
-        got = api(new("QCumulantFlow", n, k), "QCumulantFlow", "integrated_flow", [mk(f2)])
+        got = api(new("QCumulantFlow", n, k, imag), "QCumulantFlow", "integrated_flow", [mk(f2)])
         if not _qc_close(base, got):
-            return (f"QCumulantFlow-{rel}-integrated", f"k={k}: integrated (value, error) {got} after `{rel}`, before {base}",
-                    dict(expected=flat(base), observed=flat(got)))
+            return (f"QCumulantFlow-{rel}-integrated", f"k={k}, imaginary={imag!r}: integrated (value, error) {got} after "
+                    f"`{rel}`, before {base}", dict(expected=flat(base), observed=flat(got)))
         if k < 6:
-            d0 = api(new("QCumulantFlow", n, k), "QCumulantFlow", "differential_flow", [mk(flow), aux["edges"], case["sel"]])
-            d1 = api(new("QCumulantFlow", n, k), "QCumulantFlow", "differential_flow", [mk(f2), aux["edges"], case["sel"]])
-            stable = all(len(b) == 0 or (math.isfinite(float(b[0])) and abs(float(b[0])) > 1e-3) for b in d0)
+            d0 = api(new("QCumulantFlow", n, k, imag), "QCumulantFlow", "differential_flow", [mk(flow), aux["edges"], case["sel"]])
+            d1 = api(new("QCumulantFlow", n, k, imag), "QCumulantFlow", "differential_flow", [mk(f2), aux["edges"], case["sel"]])
+            stable = all(len(b_) == 0 or (math.isfinite(float(b_[0])) and abs(float(b_[0])) > 1e-3) for b_ in d0)
             if stable and not _qc_close(d0, d1, 1e-5):
-                return (f"QCumulantFlow-{rel}-differential", f"k={k}: differential flow {d1} after `{rel}`, before {d0}",
-                        dict(expected=flat(d0), observed=flat(d1)))
+                return (f"QCumulantFlow-{rel}-differential", f"k={k}, imaginary={imag!r}: differential flow {d1} after `{rel}`, "
+                        f"before {d0}", dict(expected=flat(d0), observed=flat(d1)))
     return None
+
+
+def qc_sign(flow, n, k):
+    """+1 physical / -1 unphysical sign of the order-k cumulant of the sample (read off the public result in
+    'negative' mode), 0 when too close to zero"""
+    with np.errstate(all="ignore"):
+        v = float(api(_new("QCumulantFlow", n, k, "negative"), "QCumulantFlow", "integrated_flow", [mk(flow)])[0])
+    return 0 if not math.isfinite(v) or abs(v) < 1e-3 else (1 if v > 0 else -1)
+
+
+def qc_battery():
+    """single bin containing every particle = integrated flow, for k in {2,4} x imaginary mode x sign of the
+    cumulant x documented selector; fixed samples (independent of VERIF_SEED)"""
+    import random
+    rng = random.Random("C12-qc-battery")
+    out = []
+    for k in (2, 4):
+        want = {1: None, -1: None}
+        for _ in range(200):
+            if all(v is not None for v in want.values()):
+                break
+            n = rng.randint(1, 3)
+            mod = (n, 0.3) if rng.random() < 0.5 else None
+            flow = [gen_ev(rng, 8, 12, "unset", mod=mod) for _ in range(rng.randint(2, 4))]
+            sg = qc_sign(flow, n, k)
+            if sg and want[sg] is None:
+                want[sg] = (n, flow)
+        for sg, item in want.items():
+            if item is None:
+                continue
+            n, flow = item
+            for imag in QC_MODES:
+                for sel in DOCUMENTED:
+                    case = dict(n=n, weight="pT", gap=0.0, self_corr=False, flow=flow, ref=flow, same=True, sel=sel)
+                    aux = dict(k=k, imaginary=imag, allbin=[-1000.0, 1000.0], edges=[-1000.0, 1000.0], angles=[0.0] * len(flow),
+                               pf=[list(range(len(e))) for e in flow], pr=[list(range(len(e))) for e in flow],
+                               pe=list(range(len(flow))))
+                    FORM_COUNT[f"qc-battery/k={k}/{imag}/sign={sg:+d}"] = FORM_COUNT.get(f"qc-battery/k={k}/{imag}/sign={sg:+d}", 0) + 1
+                    try:
+                        r = check_relation("QCumulantFlow", "single-bin", case, aux)
+                    except Exception as e:
+                        r = ("QCumulantFlow-raises", f"estimator raised {type(e).__name__}: {e}", dict())
+                    if r:
+                        out.append((case, aux, ("QCumulantFlow", "single-bin", r)))
+                        break
+                else:
+                    continue
+                break
+    return out
 
 
 def gen_aux(rng, case, qc=False):
@@ -1071,7 +1378,8 @@ def gen_aux(rng, case, qc=False):
     pf = mk(flow)
     edges = gen_edges(rng, pf, case["sel"], exact_prob=0.5 if rng.random() < 0.5 else 0.0)
     return dict(angles=angles, pf=[perm(len(e)) for e in flow], pr=[perm(len(e)) for e in ref], pe=pe,
-                edges=edges, allbin=[-1000.0, 1000.0], k=rng.choice([2, 4, 6]) if qc else None)
+                edges=edges, allbin=[-1000.0, 1000.0], k=rng.choice([2, 4, 6]) if qc else None,
+                imaginary=rng.choice(QC_MODES) if qc else None, extra=rng.random() < 0.4)
 
 
 def check_all(case, aux, names=("ReactionPlaneFlow", "ScalarProductFlow", "EventPlaneFlow", "QCumulantFlow")):
@@ -1082,6 +1390,8 @@ def check_all(case, aux, names=("ReactionPlaneFlow", "ScalarProductFlow", "Event
                     continue
                 if not ep_regular(name, case, case["flow"], case["ref"] if not case["same"] else case["flow"]):
                     continue
+            if rel in DEVICE_RELATIONS and not aux.get("extra"):
+                continue
             r = check_relation(name, rel, case, aux)
             if r:
                 return name, rel, r
@@ -1119,7 +1429,7 @@ SAMPLE_KINDS = {           # (events, particles per event, flow strength v)
     "small": ((2, 5), (3, 9), (0.0, 0.3)),
     "dilute-weak": ((12, 25), (10, 20), (0.1, 0.2)),
     "medium": ((6, 12), (30, 60), (0.15, 0.3)),
-    "dense-strong": ((4, 7), (120, 260), (0.25, 0.4)),
+    "dense-strong": ((3, 5), (100, 190), (0.28, 0.4)),
 }
 
 
@@ -1199,6 +1509,23 @@ def run_history(steps, stop_at_first=True):
             mirror[st["slot"]][st["event"]] = [
                 (r[0], r[1], r[2], r[3], (st["weights"][j] if j < len(st["weights"]) else r[4]))
                 for j, r in enumerate(mirror[st["slot"]][st["event"]])]
+        elif op == "copy-sample":
+            # the caller hands over a copy of its data: new list (and, unless shallow, particle) objects, same content
+            if st["how"] == "copy.copy":
+                ws[st["slot"]] = [list(e) for e in ws[st["slot"]]]
+            else:
+                ws[st["slot"]] = COPIES[st["how"]](ws[st["slot"]])
+        elif op == "copy-object":
+            name, ctor = st["est"], tuple(st["ctor"])
+            key = (name, ctor)
+            if key not in objs:
+                objs[key] = construct(name, ctor, None)
+            o2 = COPIES[st["how"]](objs[key])
+            if observe(o2) != observe(objs[key]):
+                return (f"copy:{name}:{st['how']}:observable-differs",
+                        f"step {i}: {st['how']} of the long-lived {name}{ctor} differs from the original: "
+                        f"{_first_diff(observe(objs[key]), observe(o2))}", dict(step=i))
+            objs[key] = o2
         elif op in ("call", "bad-call"):
             name, ctor = st["est"], tuple(st["ctor"])
             key = (name, ctor)
@@ -1231,7 +1558,7 @@ def run_history(steps, stop_at_first=True):
                     return flat([(t[0], t[1]) for t in r])
                 except Exception as e:
                     return "raises " + type(e).__name__
-            hist = [x["op"] if "est" not in x else x["est"][:2] + ":" + x["method"][:4] +
+            hist = [x["op"] if "method" not in x else x["est"][:2] + ":" + x["method"][:4] +
                     ("!" + x["fault"]["kind"] if x.get("fault") else "") for x in steps[:i + 1]]
             snap = snapshot({f"sample {k}": v for k, v in ws.items()})
             before = observe(objs[key])
@@ -1469,6 +1796,11 @@ def gen_history(rng, scripted=None):
         elif kind == "weights":
             i = rng.randrange(nev)
             steps.append(dict(op="weights", slot="A", event=i, weights=[rng.choice([0.5, 1.0, 2.0, 4.0]) for _ in evs[i]]))
+        elif kind == "copy-sample":
+            steps.append(dict(op="copy-sample", slot="A", how=rng.choice(list(COPIES))))
+        elif kind == "copy-object":
+            e = rng.choice(ests)
+            steps.append(dict(op="copy-object", est=e, ctor=rng.choice(ctors[e]), how=rng.choice(list(COPIES))))
         elif kind in ("refill", "build"):
             k2 = rng.choice([k for k in kinds if k != cur["kind"]]) if scripted is None else \
                 ("dense-strong" if cur["kind"] != "dense-strong" else "dilute-weak")
@@ -1479,6 +1811,7 @@ def gen_history(rng, scripted=None):
     if scripted:
         t = 0
         for j, m in enumerate(["reverse", "rotate", "perm-particles", "perm-events", "weights", "replace-event",
+                               "copy-object", "copy-sample", "copy-object", "copy-sample", "copy-object",
                                "refill", "refill", "build", "refill", "refill", "reverse"]):
             # every fault kind with integrated and differential flow, on both long-lived objects in turn
             bad(t, j)
@@ -1492,7 +1825,8 @@ def gen_history(rng, scripted=None):
         call(t + 2)
         call(t + 3)
     else:
-        moves = ["reverse", "perm-events", "perm-particles", "rotate", "replace-event", "weights", "refill", "refill", "build"]
+        moves = ["reverse", "perm-events", "perm-particles", "rotate", "replace-event", "weights", "refill", "refill", "build",
+                 "copy-object", "copy-sample"]
         for t in range(rng.randint(4, 9)):
             if rng.random() < 0.35:
                 bad(t)
@@ -1544,6 +1878,12 @@ def shrink_history(steps, key):
     return cur, fails(cur) or r
 
 
+def _flush_counts(ctx):
+    for k, v in FORM_COUNT.items():
+        ctx.count(("oracle/" if k.startswith(("one-shot", "qc-battery", "text")) else "call-form/") + k, v)
+    FORM_COUNT.clear()
+
+
 def search_histories(ctx, budget_s):
     import random
     t0 = time.time()
@@ -1577,12 +1917,11 @@ def search_histories(ctx, budget_s):
     # the fixed battery does not depend on VERIF_SEED: every estimator sees every move once
     for e in STATEFUL:
         one(gen_history(random.Random("C12-battery-" + e), scripted=e), "battery/" + e)
+    t0 = time.time()  # the random histories get their own slice after the fixed battery
     while time.time() - t0 < budget_s and len(found) < 4:
         one(gen_history(ctx.rng), "random")
     ctx.cov["oracle_histories"] = nh
-    for k, v in FORM_COUNT.items():
-        ctx.count("call-form/" + k, v)
-    FORM_COUNT.clear()
+    _flush_counts(ctx)
     for k, v in OUTCOMES.items():
         ctx.count("oracle/history/error-path-outcome/" + k, v)
     OUTCOMES.clear()
@@ -1605,9 +1944,11 @@ def search(ctx, budget_s):
         n += 1
         if res:
             _report(ctx, c["case"], c["aux"], res)
-    for key, what, detail in oracle_reuse_tables():
+    for key, what, detail in oracle_reuse_tables() + oracle_text():
         ctx.violation(key, what, dict(input=detail, how_to_replay="./check C12 --replay <this file>"))
-    search_histories(ctx, 90 if ctx.thorough else 8)
+    search_histories(ctx, 90 if ctx.thorough else 6)
+    for case_, aux_, res_ in qc_battery():
+        _report(ctx, case_, aux_, res_)
     t0 = time.time()
     found = set()
     limit = 4000 if ctx.thorough else 250
@@ -1621,6 +1962,7 @@ def search(ctx, budget_s):
                       gap=rng.choice([0.0, 0.0, 0.1, 0.5]))
         qc = rng.random() < 0.35
         kq = rng.choice([2, 4, 6])
+        imq = rng.choice(QC_MODES)
         if pooled:
             pool_start()
         try:
@@ -1629,14 +1971,16 @@ def search(ctx, budget_s):
                 case = gen_case(rng, regular=True, lo=3, hi=9, params=params, holes=holes)
                 names = ["ReactionPlaneFlow", "ScalarProductFlow", "EventPlaneFlow"]
                 if qc:
-                    case["flow"] = [gen_ev(rng, 8, 12, "unset", mod=(case["n"], 0.3), midrap=0.1) for _ in range(rng.randint(2, 5))]
+                    case["flow"] = [gen_ev(rng, 8, 12, "unset", mod=(case["n"], 0.3) if rng.random() < 0.5 else None, midrap=0.1)
+                                    for _ in range(rng.randint(2, 5))]
                     case["ref"], case["same"], case["holes"] = case["flow"], True, []
                     if holes:
                         add_holes(rng, case)
                     names = ["QCumulantFlow"]
                 aux = gen_aux(rng, case, qc=qc)
                 if qc:
-                    aux["k"] = kq
+                    aux["k"], aux["imaginary"] = kq, imq
+                    ctx.count(f"oracle/qc/k={kq}/{imq}/sign={qc_sign(case['flow'], case['n'], kq):+d}")
                 n += 1
                 ctx.case(("oracle", json.dumps(_case_json(case, "oracle"), sort_keys=True, default=str)), True)
                 ctx.count("oracle/" + ("qc" if qc else "rp-sp-ep") + ("/reused-objects" if pooled else "/fresh-objects")
@@ -1688,6 +2032,7 @@ def search(ctx, budget_s):
         finally:
             pool_stop()
     ctx.cov["oracle_cases"] = n
+    _flush_counts(ctx)
     if SKIPS["n"]:
         ctx.count("skipped-no-private-access", SKIPS["n"])
         SKIPS["n"] = 0
@@ -1847,6 +2192,9 @@ def replay(ctx, path):
             pool_stop()
         if r:
             r = (d["key"], "re-used estimator object: " + r[1])
+    elif d.get("key", "").startswith("text-"):
+        rs = [x for x in oracle_text() if x[0] == d.get("key")]
+        r = rs[0] if rs else None
     elif d.get("key", "").startswith("instance-reuse-"):
         rs = [x for x in oracle_reuse_tables() if x[0] == d.get("key")]
         r = rs[0] if rs else None
